@@ -116,6 +116,18 @@ theorem Inv.run_auth {s : St} (hI : Inv s) (f r : Nat) :
     rfl
   | some e => rfl
 
+theorem Inv.run_authE {s : St} (hI : Inv s) (f r : Nat) :
+    run (authE (f+1) r) s = (match s.ids r with | some e => .ok e | none => .error .denied, s) := by
+  unfold authE
+  simp only [bind_eq, pure_eq]
+  rw [run_bind, hI.run_lookup]
+  cases h : s.ids r with
+  | none =>
+    simp only
+    rw [run_bind, hI.run_lookup, h]
+    rfl
+  | some e => rfl
+
 theorem Inv.run_sudoCheck {s : St} (hI : Inv s) (f r : Nat) :
     run (sudoCheck (f+1) r) s = (.ok (s.ids r).isSome, s) := by
   unfold sudoCheck
@@ -278,9 +290,9 @@ theorem post_inv {s σ : St} {t : Nat} (hI : Inv s) (hp : Post s t σ) : Inv σ 
     rcases hp.sh.ids x with h | h
     · have hs : s.ids x = none := by rw [← h]; exact hx
       have hd := hI.deadClean x hs
-      obtain ⟨k1, k2, _, k4, _⟩ := hp.sh.keep x h
+      obtain ⟨k1, k2, _, k4, k4', _⟩ := hp.sh.keep x h
       refine ⟨hx, by rw [k2]; exact hd.noLease, by rw [k1]; exact hd.noAcc, ?_, ?_⟩
-      · intro k; rw [k4]; exact hd.noCub k
+      · intro k; rw [k4, k4']; exact hd.noCub k
       · intro l e hl
         rcases hp.sh.sl l with h' | ⟨t', e0, h1, h2⟩
         · exact hd.leases l e (by rw [← h']; exact hl)
@@ -300,7 +312,7 @@ theorem post_inv {s σ : St} {t : Nat} (hI : Inv s) (hp : Post s t σ) : Inv σ 
     | raw y => rw [hp.sh.rawp y]; exact hI.pendClean _
     | salted y =>
       rcases hp.sh.ids y with h | h
-      · rw [(hp.sh.keep y h).2.2.2.2]; exact hI.pendClean _
+      · rw [(hp.sh.keep y h).2.2.2.2.2]; exact hI.pendClean _
       · rw [h.2.2.2]; intro h'; cases h'
 
 /-- T2 for cascading revocations -/
